@@ -152,6 +152,10 @@ namespace nmtools::array
             //     "mismatched shape for evaluator call"
             // );
 
+            #ifdef NMTOOLS_VERIF
+            if (!::nmtools::utils::isequal(out_shape,inp_shape))
+                NMTOOLS_VERIF_EVAL_SHAPE_MISMATCH(20);
+            #endif
             if (!::nmtools::utils::isequal(out_shape,inp_shape))
                 return;
 
